@@ -13,7 +13,7 @@
      one_sheet out f g : out = Ok [cone; plane]; -s is {f < 0 and g > 0},
        +s is {f > 0 or g < 0}, and the cone's zero set is that of f. *)
 From Coq Require Import List NArith ZArith Bool String Ascii Reals Lra.
-From T4V Require Import Base.Str Base.Scalar C02.Vec C02.Spec C02.Model C02.Proofs C02.ProofsCards C02.ProofsP3 C02.ProofsAll C02.ProofsAxis C02.ProofsNum C02.ProofsIds C02.ProofsBand C02.ProofsCounts C02.Text C02.ProofsText.
+From T4V Require Import Base.Str Base.Scalar C02.Vec C02.Spec C02.Model C02.Proofs C02.ProofsCards C02.ProofsP3 C02.ProofsAll C02.ProofsAxis C02.ProofsNum C02.ProofsIds C02.ProofsBand C02.ProofsCounts C02.Text C02.ProofsText C02.LinkC04.
 Import ListNotations.
 Open Scope R_scope.
 
@@ -557,6 +557,76 @@ Proof.
 Qed.
 Print Assumptions C02_to_float_denotes.
 
+(* ---------- LINK with C04: a surface card WITH a TR number ---------- *)
+(* C02/LinkC04.v hands the SurfaceMCNP built by C02's to_surface_mcnp, in C04's
+   frame form (to_ms), to C04's transformation and convert (card_tr_convert,
+   convert_text_tr), and composes C02's reading of the card with
+   C04_transformation_law and C04_convert_law: for the card text of a plane,
+   sphere, cylinder, cone (all selector forms), SQ or GQ card carrying the TR
+   number n, TRn = (O, B) with B orthonormal, the written surfaces select at
+   the moved point O + B^T p' the MCNP sense of the card at p'.
+   Left out: tori (C04_frame_transform_torus is a separate law with its own
+   hypotheses), X/Y/Z and the nine-entry P. *)
+Theorem C02_text_every_card_locus_sense_linked :
+  forall (txt bc : string) (name : N) (tr ty : string) (prm : list R) (mn : mnem)
+         (ms : msurf (T:=R)) (n : Z) (o : S4.R3) (b : V4.M3 R) (trs : list (Z * list R)),
+  parse_surface_card RS txt = Ok (bc, name, tr, ty, prm) ->
+  tr_number tr = Some n -> M4.lookup n trs = M4.Ok (C4.tr12 o b) -> S4.rows_orthonormal b ->
+  classify ty = TyMnem mn -> linkable mn prm ->
+  mcnp_surface RS mn prm = Some ms -> admissible mn prm ->
+  exists coll, convert_text_tr trs txt = M4.Ok coll /\
+    forall p',
+      (S4.coll_neg coll (S4.to_main o b p') <->
+         m_f ms (pt3 p') < 0 /\ match m_sheet ms with None => True | Some g => 0 < g (pt3 p') end) /\
+      (S4.coll_pos coll (S4.to_main o b p') <->
+         0 < m_f ms (pt3 p') \/ match m_sheet ms with None => False | Some g => g (pt3 p') < 0 end).
+Proof. exact text_every_card_linked. Qed.
+Print Assumptions C02_text_every_card_locus_sense_linked.
+
+(* the same for EVERY mnemonic of the property except the tori: also the
+   nine-entry P (under p3_guard) and the point-defined X / Y / Z in all forms *)
+Theorem C02_text_every_card_all_mnemonics_linked :
+  forall (txt bc : string) (name : N) (tr ty : string) (prm : list R) (mn : mnem)
+         (ms : msurf (T:=R)) (n : Z) (o : S4.R3) (b : V4.M3 R) (trs : list (Z * list R)),
+  parse_surface_card RS txt = Ok (bc, name, tr, ty, prm) ->
+  tr_number tr = Some n -> M4.lookup n trs = M4.Ok (C4.tr12 o b) -> S4.rows_orthonormal b ->
+  classify ty = TyMnem mn -> linkable_all mn ->
+  mcnp_surface RS mn prm = Some ms -> admissible mn prm ->
+  exists coll, convert_text_tr trs txt = M4.Ok coll /\
+    forall p',
+      (S4.coll_neg coll (S4.to_main o b p') <->
+         m_f ms (pt3 p') < 0 /\ match m_sheet ms with None => True | Some g => 0 < g (pt3 p') end) /\
+      (S4.coll_pos coll (S4.to_main o b p') <->
+         0 < m_f ms (pt3 p') \/ match m_sheet ms with None => False | Some g => g (pt3 p') < 0 end).
+Proof. exact text_every_card_linked_all. Qed.
+Print Assumptions C02_text_every_card_all_mnemonics_linked.
+
+(* tori with a TR number, through C04's torus law: when the moved axis is
+   exactly a coordinate axis or clearly not one (C04's torus_axis_ok), ONE torus
+   is written and its equation at the moved point is the card's at p' *)
+Theorem C02_torus_tr_linked : forall (x0 y0 z0 A B C : R) (o : S4.R3) (b : V4.M3 R),
+  S4.rows_orthonormal b ->
+  (O4.torus_axis_ok (F4.tvec b (V4.mkV 1 0 0)) ->
+     exists t, card_tr_convert (C4.tr12 o b) M_TX [x0; y0; z0; A; B; C] = M4.Ok [(t, 1%Z)] /\
+       forall p', S4.t4val t (S4.to_main o b p') = fM_tx RS x0 y0 z0 A B C (pt3 p')) /\
+  (O4.torus_axis_ok (F4.tvec b (V4.mkV 0 1 0)) ->
+     exists t, card_tr_convert (C4.tr12 o b) M_TY [x0; y0; z0; A; B; C] = M4.Ok [(t, 1%Z)] /\
+       forall p', S4.t4val t (S4.to_main o b p') = fM_ty RS x0 y0 z0 A B C (pt3 p')) /\
+  (O4.torus_axis_ok (F4.tvec b (V4.mkV 0 0 1)) ->
+     exists t, card_tr_convert (C4.tr12 o b) M_TZ [x0; y0; z0; A; B; C] = M4.Ok [(t, 1%Z)] /\
+       forall p', S4.t4val t (S4.to_main o b p') = fM_tz RS x0 y0 z0 A B C (pt3 p')).
+Proof. exact torus_tr_linked. Qed.
+Print Assumptions C02_torus_tr_linked.
+
+(* the frame form that C04 starts from has the sense of the card (the bridge
+   used above; link_wf = what C04's laws ask of it) *)
+Theorem C02_frame_form_sense_linked : forall (mn : mnem) (prm : list R) (ms : msurf (T:=R)),
+  linkable mn prm -> mcnp_surface RS mn prm = Some ms -> admissible mn prm ->
+  exists c s, to_surface_mcnp RS mn prm = Ok c /\ to_ms c = Some s /\ link_wf s /\
+    forall P, (S4.mneg s P <-> neg_sense ms (pt3 P)) /\ (S4.mpos s P <-> pos_sense ms (pt3 P)).
+Proof. exact frame_sense. Qed.
+Print Assumptions C02_frame_form_sense_linked.
+
 (* ---------- Spec sanity (the Spec says what the manual says) ---------- *)
 Theorem C02_spec_sanity :
   (forall (p1 p2 p3 : vec (T:=R)) (A B C D : R),
@@ -612,6 +682,18 @@ Proof. exact every_card_examples. Qed.
 Example C02_example_text :
   exists ms, m_sheet ms <> None /\ card_correct (convert_text RS "  *7  KZ 0 1.0d0  -1 "%string) ms.
 Proof. exact text_example. Qed.
+
+(* the linked statement is not vacuous: "7 5 KZ 0 1.0d0 -1" with TR5 = origin
+   (1,0,0) and a quarter turn about z *)
+Example C02_example_linked :
+  let b := V4.mkV (V4.mkV 0 1 0) (V4.mkV (-1) 0 0) (V4.mkV 0 0 1) in
+  let o := V4.mkV 1 0 0 in
+  S4.rows_orthonormal b /\
+  exists ms coll, m_sheet ms <> None /\
+    convert_text_tr [(5%Z, C4.tr12 o b)] "7 5 KZ 0 1.0d0 -1"%string = M4.Ok coll /\
+    forall p', (S4.coll_neg coll (S4.to_main o b p') <-> neg_sense ms (pt3 p')) /\
+               (S4.coll_pos coll (S4.to_main o b p') <-> pos_sense ms (pt3 p')).
+Proof. exact linked_example. Qed.
 
 Example C02_example_spellings :
   scan_real "6.40875-2" = Some (mkNum false 640875 (-7)) /\
